@@ -1,9 +1,26 @@
 import WzVerif.Driver.Proto
+import WzVerif.Driver.C03
+import WzVerif.Model.RoutingFollow
 namespace Wz.Driver.C12
-open Wz Wz.Proto
+open Wz Wz.Proto Wz.Routing Wz.Routing.Wire
 
-/-- stub: no model commands yet -/
+def outChain (r : List Outcome × Option String) : String :=
+  " > ".intercalate (r.1.map outOutcome) ++ (match r.2 with | some e => " > " ++ e | none => "")
+
 def handle : Handler
-  | _, _ => none
+  | "route.follow", [m, a, qa, ws, hops, probes] =>
+    match mapArg m, adapterArg a, qaArg qa, optArg boolArg ws, natArg hops with
+    | some (some m), some a, some qa, some ws, some hops =>
+      let outs := (splitStr probes ",").map fun pr =>
+        match pr.splitOn ":" with
+        | [p, meth] =>
+          match unhexStr p, unhexStr meth with
+          | some p, some meth => outChain (follow m a (some meth) ws hops p qa [])
+          | _, _ => badArgs
+        | _ => badArgs
+      some ("|".intercalate outs)
+    | some none, _, _, _, _ => some "UNSUPPORTED"
+    | _, _, _, _, _ => some badArgs
+  | cmd, args => Wz.Driver.C03.routing cmd args
 
 end Wz.Driver.C12
